@@ -8,6 +8,7 @@
 import WsVerif.Props.C04
 import WsVerif.Props.C06
 import WsVerif.Proofs.Reader
+import WsVerif.Proofs.ReaderText
 namespace Ws.C16
 open Ws Ws.Spec
 
@@ -51,6 +52,35 @@ theorem cut_payload_never_succeeds (ks : List Nat) (hpos : ∀ k ∈ ks, 0 < k) 
     · omega
     · exact Or.inl he
     · exact Or.inr he
+
+/-- **The same for a text frame read with CheckUTF8 on**, `σ` being the Table 3-7 position the text
+    delivered so far has reached: a cut text frame never ends in io.EOF either — the Reads hand out a
+    genuine prefix of what arrived and then report io.ErrUnexpectedEOF, the transport's failure, or
+    (if the bytes that did arrive are not UTF-8) ErrInvalidUTF8; one of the three after at most
+    (bytes + chunks + 1) Reads. -/
+theorem cut_text_payload_never_succeeds (ks : List Nat) (hpos : ∀ k ∈ ks, 0 < k) (σ : Spec.U8) (r : Rd) (s : Src) (cx : Ctx)
+    (htm : RdText.TM σ r) (hhas : r.hasFrame = true) (hshort : s.bytes.length < r.rawN)
+    (hwf : Bytes.WF s.bytes) (hmwf : r.mask.WF) :
+    ∃ out e r' s' cx', reads r s cx ks = some (out, e, r', s', cx')
+      ∧ (∃ raw more rest, out ++ more = plainOf r raw ∧ raw ++ rest = s.bytes)
+      ∧ e ≠ some .eof
+      ∧ (mu s < ks.length → e = some .ueof ∨ e = some .fail ∨ e = some .utf8) := by
+  have hcut : CutFrame (RdText.strip r) s := ⟨hhas, rfl, hshort, hwf, hmwf⟩
+  obtain ⟨raw, out, e, q', s', h1, h2, h3, h4, h5⟩ := cut_payload_never_succeeds ks hpos (RdText.strip r) s cx hcut
+  have hpo : plainOf (RdText.strip r) raw = plainOf r raw := rfl
+  have hrawwf : Bytes.WF raw := by rw [← h3] at hwf; exact RdText.wf_left hwf
+  have howf : Bytes.WF out := by
+    rw [h2, hpo]; unfold plainOf
+    split
+    · rw [← xorFrom_eq_spec]; exact xorFrom_wf r.mask hmwf _ _ hrawwf
+    · exact hrawwf
+  rcases RdText.reads_sim ks σ r s cx htm out e q' s' cx h1 howf with
+    ⟨_, _, r', a3, _, _⟩ | ⟨_, out', r', s'', cx'', a3, more', a4⟩
+  · refine ⟨out, e, r', s', cx, a3, ⟨raw, [], s'.bytes, by rw [List.append_nil, h2, hpo], h3⟩, h4, fun hl => ?_⟩
+    rcases h5 hl with h | h
+    · exact Or.inl h
+    · exact Or.inr (Or.inl h)
+  · exact ⟨out', some .utf8, r', s'', cx'', a3, ⟨raw, more', s'.bytes, by rw [← a4, h2, hpo], h3⟩, by simp, fun _ => Or.inr (Or.inr rfl)⟩
 
 /-- **A stream ending between the fragments of a message** (after any valid prefix of the message
     has been read): the Read that has to fetch the next fragment reports io.ErrUnexpectedEOF, never
